@@ -458,7 +458,7 @@ def run(ctx):
 
 
 MANIFEST_ENTRY = {
-    "technique": "static analysis: abstract evaluation (rules/absint.py) of Locale::merge (missing / surplus / present keys under each feasible default_to, on the Locale of a sub-key group), of check_locales_inner over every locale order, of make_builder_keys and of the warning generator; the inherits-table clause of C19.R0 (every configured entry reaches the key check); MIR who-may-emit / who-builds checks; abstract evaluation of the value visitor callback by callback (a map is a group, also an empty one; null is the explicit default), of Warnings::emit_warning / into_inner, and of ParsedValue::merge of a null against a group with nested groups; the default-first clause of C19.R0",
+    "technique": "static analysis: abstract evaluation (rules/absint.py) of Locale::merge (missing / surplus / present keys under each feasible default_to, on the Locale of a sub-key group), of check_locales_inner over every locale order, of make_builder_keys and of the warning generator; the inherits-table clause of C19.R0 (every configured entry reaches the key check); MIR who-may-emit / who-builds checks; abstract evaluation of the value visitor callback by callback (a map is a group, also an empty one; null is the explicit default), of Warnings::emit_warning / into_inner, and of ParsedValue::merge of a null against a group with nested groups; the default-first clause of C19.R0; visit_f64 in the value-kind table (f64 model of the evaluator)",
     "level_text": "Structural / finite case analysis: MissingKey exactly for absent keys under an implicit fallback, SurplusKey exactly for keys the default set lacks (whatever the sizes of the sets) unless suppressed, accessors exactly from the default locale's key set, one deprecated function per warning - decided by evaluating the source over the shapes it can distinguish, plus who-may-emit on MIR. Does not count warnings for a concrete project.",
     "level_note": "Trusted: BTreeMap semantics, rustc deprecation warnings. Not decided: exact warning multiset for a concrete project.",
 }
